@@ -89,6 +89,19 @@ theorem opndsOf_length (ops : List X86.Operand) : (opndsOf ops).length = ops.len
   have := congrArg List.length (opndsOf_p ops)
   simpa using this
 
+theorem opndsFromA64_p (i : Nat) (ops : List ParseA64.Operand) :
+    (opndsFromA64 i ops).map (·.p) = ops.map poperandA64 := by
+  induction ops generalizing i with
+  | nil => rfl
+  | cons o os ih => simp [opndsFromA64, opndA64, ih (i + 1)]
+
+theorem opndsA64_p (ops : List ParseA64.Operand) : (opndsA64 ops).map (·.p) = ops.map poperandA64 :=
+  opndsFromA64_p 0 ops
+
+theorem opndsA64_length (ops : List ParseA64.Operand) : (opndsA64 ops).length = ops.length := by
+  have := congrArg List.length (opndsA64_p ops)
+  simpa using this
+
 /-! ### load / store flags -/
 
 theorem semOpP_isMem (o : Isa.SemOp) : Compose.isMem (semOpP o) = Isa.isMem o := by
@@ -117,5 +130,173 @@ theorem substituteMem_agree (ops : List POperand) : Compose.substituteMem ops = 
     simp only [Compose.substituteMem, Isa.substituteMem, List.map_cons] at ih ⊢
     rw [ih]
     cases o <;> rfl
+
+/-! ### AArch64: the key identifies the operand under `==` -/
+
+/-- what `RegisterOperand.__eq__` / `MemoryOperand.__eq__` read of a parsed AArch64 operand: not the predication of a
+    register, not the shift operator / amount of an index register (the scale is read) -/
+def eqViewA64 : ParseA64.Operand → ParseA64.Operand
+  | .reg r => .reg { r with pred := none }
+  | .mem m => .mem { m with index := m.index.map fun i => { i with shiftOp := none, shift := none } }
+  | o => o
+
+theorem encBool_eq (a b : Bool) (h : (if a then 1 else 0 : Nat) = if b then 1 else 0) : a = b := by
+  cases a <;> cases b <;> simp at h <;> rfl
+
+theorem encIdent_inj : PrefixInj encIdent := by
+  intro a b r r' h
+  simp only [encIdent, List.append_assoc] at h
+  obtain ⟨e1, h⟩ := encOptTxt_inj _ _ _ _ h
+  obtain ⟨e2, h⟩ := encTxt_inj _ _ _ _ h
+  obtain ⟨e3, h⟩ := encOptTxt_inj _ _ _ _ h
+  refine ⟨?_, h⟩
+  cases a; cases b; simp_all
+
+theorem encOffA64_inj : PrefixInj encOffA64 := by
+  intro a b r r' h
+  rcases a with _ | a <;> rcases b with _ | b
+  · simpa [encOffA64] using h
+  · cases b <;> simp [encOffA64] at h
+  · cases a <;> simp [encOffA64] at h
+  · cases a <;> cases b <;> simp only [encOffA64, List.cons_append, List.cons.injEq] at h <;>
+      first
+      | (exact absurd h.1 (by decide))
+      | (obtain ⟨e, hr⟩ := encInt_inj _ _ r r' h.2; exact ⟨by rw [e], hr⟩)
+      | (obtain ⟨e, hr⟩ := encIdent_inj _ _ r r' h.2; exact ⟨by rw [e], hr⟩)
+      | (exact ⟨rfl, by simpa using h⟩)
+
+theorem encPostA64_inj : PrefixInj encPostA64 := by
+  intro a b r r' h
+  rcases a with _ | a <;> rcases b with _ | b
+  · simpa [encPostA64] using h
+  · cases b <;> simp [encPostA64] at h
+  · cases a <;> simp [encPostA64] at h
+  · cases a <;> cases b <;> simp only [encPostA64, List.cons_append, List.cons.injEq] at h <;>
+      first
+      | (exact absurd h.1 (by decide))
+      | (obtain ⟨e, hr⟩ := encInt_inj _ _ r r' h.2; exact ⟨by rw [e], hr⟩)
+      | (exact ⟨rfl, by simpa using h⟩)
+
+theorem encExp_inj : PrefixInj encExp := by
+  intro a b r r' h
+  rcases a with _ | ⟨s, e⟩ <;> rcases b with _ | ⟨s', e'⟩
+  · simpa [encExp] using h
+  · simp [encExp] at h
+  · simp [encExp] at h
+  · simp only [encExp, List.cons_append, List.cons.injEq, true_and, List.append_assoc] at h
+    obtain ⟨e1, h⟩ := encTxt_inj _ _ _ _ h
+    obtain ⟨e2, h⟩ := encTxt_inj _ _ _ _ h
+    exact ⟨by rw [e1, e2], h⟩
+
+/-- the index register as `__eq__` sees it: prefix and name -/
+theorem encIdxA64_inj (a b : Option ParseA64.MemIdx) (r r' : Txt) (h : encIdxA64 a ++ r = encIdxA64 b ++ r') :
+    a.map (fun i => ({ i with shiftOp := none, shift := none } : ParseA64.MemIdx)) =
+      b.map (fun i => ({ i with shiftOp := none, shift := none } : ParseA64.MemIdx)) ∧ r = r' := by
+  rcases a with _ | a <;> rcases b with _ | b
+  · simpa [encIdxA64] using h
+  · simp [encIdxA64] at h
+  · simp [encIdxA64] at h
+  · simp only [encIdxA64, List.cons_append, List.cons.injEq, true_and, List.append_assoc] at h
+    obtain ⟨e1, h⟩ := encTxt_inj _ _ _ _ h
+    obtain ⟨e2, h⟩ := encTxt_inj _ _ _ _ h
+    exact ⟨by simp [e1, e2], h⟩
+
+/-- **the AArch64 key identifies the operand under `==`**: equal keys ⇒ the fields `__eq__` compares are equal
+    (`eqViewA64`) — except that operands of the classes without `__eq__` (identifier, condition code, prefetch
+    operation) are equal only to the one at their own position -/
+theorem keyA64_eq (i j : Nat) (a b : ParseA64.Operand) (h : keyA64 i a = keyA64 j b) :
+    eqViewA64 a = eqViewA64 b ∨
+    (i = j ∧ ((∃ x y, a = .ident x ∧ b = .ident y) ∨ (∃ x y, a = .cond x ∧ b = .cond y) ∨
+              (∃ t g p t' g' p', a = .prf t g p ∧ b = .prf t' g' p'))) := by
+  cases a with
+  | reg r =>
+    cases b with
+    | reg r' =>
+      left
+      simp only [keyA64, List.cons.injEq, true_and, List.append_assoc] at h
+      obtain ⟨e1, h⟩ := encTxt_inj _ _ _ _ h
+      obtain ⟨e2, h⟩ := encTxt_inj _ _ _ _ h
+      obtain ⟨e3, h⟩ := encOptTxt_inj _ _ _ _ h
+      obtain ⟨e4, h⟩ := encOptTxt_inj _ _ _ _ h
+      obtain ⟨e5, _⟩ := encOptTxt_inj _ _ [] [] (by simpa using h)
+      clear h
+      cases r; cases r'; simp_all [eqViewA64]
+    | imm v => cases v <;> simp [keyA64] at h
+    | ident _ => simp [keyA64] at h
+    | cond _ => simp [keyA64] at h
+    | prf _ _ _ => simp [keyA64] at h
+    | mem _ => simp [keyA64] at h
+  | imm v =>
+    cases b with
+    | imm v' =>
+      left
+      cases v with
+      | int x =>
+        cases v' with
+        | int y =>
+          simp only [keyA64, List.cons.injEq, true_and] at h
+          obtain ⟨e, _⟩ := encInt_inj _ _ [] [] (by simpa using h)
+          rw [e]
+        | flt _ _ _ => simp [keyA64] at h
+      | flt d m e =>
+        cases v' with
+        | int y => simp [keyA64] at h
+        | flt d' m' e' =>
+          simp only [keyA64, List.cons.injEq, true_and] at h
+          have ed := encBool_eq d d' h.1
+          obtain ⟨em, h⟩ := encTxt_inj _ _ _ _ h.2
+          obtain ⟨ee, _⟩ := encExp_inj _ _ [] [] (by simpa using h)
+          rw [ed, em, ee]
+    | reg _ => cases v <;> simp [keyA64] at h
+    | ident _ => cases v <;> simp [keyA64] at h
+    | cond _ => cases v <;> simp [keyA64] at h
+    | prf _ _ _ => cases v <;> simp [keyA64] at h
+    | mem _ => cases v <;> simp [keyA64] at h
+  | ident x =>
+    cases b with
+    | ident y => right; simp only [keyA64, List.cons.injEq, true_and, and_true] at h; exact ⟨h, Or.inl ⟨_, _, rfl, rfl⟩⟩
+    | imm v => cases v <;> simp [keyA64] at h
+    | reg _ => simp [keyA64] at h
+    | cond _ => simp [keyA64] at h
+    | prf _ _ _ => simp [keyA64] at h
+    | mem _ => simp [keyA64] at h
+  | cond x =>
+    cases b with
+    | cond y => right; simp only [keyA64, List.cons.injEq, true_and, and_true] at h; exact ⟨h, Or.inr (Or.inl ⟨_, _, rfl, rfl⟩)⟩
+    | imm v => cases v <;> simp [keyA64] at h
+    | reg _ => simp [keyA64] at h
+    | ident _ => simp [keyA64] at h
+    | prf _ _ _ => simp [keyA64] at h
+    | mem _ => simp [keyA64] at h
+  | prf t g p =>
+    cases b with
+    | prf t' g' p' =>
+      right; simp only [keyA64, List.cons.injEq, true_and, and_true] at h
+      exact ⟨h, Or.inr (Or.inr ⟨_, _, _, _, _, _, rfl, rfl⟩)⟩
+    | imm v => cases v <;> simp [keyA64] at h
+    | reg _ => simp [keyA64] at h
+    | ident _ => simp [keyA64] at h
+    | cond _ => simp [keyA64] at h
+    | mem _ => simp [keyA64] at h
+  | mem m =>
+    cases b with
+    | mem m' =>
+      left
+      simp only [keyA64, List.cons.injEq, true_and, List.append_assoc] at h
+      obtain ⟨e1, h⟩ := encOffA64_inj _ _ _ _ h
+      obtain ⟨e2, h⟩ := encTxt_inj _ _ _ _ h
+      obtain ⟨e3, h⟩ := encTxt_inj _ _ _ _ h
+      obtain ⟨e4, h⟩ := encIdxA64_inj _ _ _ _ h
+      simp only [List.cons_append, List.nil_append, List.cons.injEq] at h
+      obtain ⟨e5, h⟩ := h
+      have e6 := encBool_eq m.pre m'.pre h.1
+      obtain ⟨e7, _⟩ := encPostA64_inj _ _ [] [] (by simpa using h.2)
+      clear h
+      cases m; cases m'; simp_all [eqViewA64]
+    | imm v => cases v <;> simp [keyA64] at h
+    | reg _ => simp [keyA64] at h
+    | ident _ => simp [keyA64] at h
+    | cond _ => simp [keyA64] at h
+    | prf _ _ _ => simp [keyA64] at h
 
 end OsacaVerif.Glue
